@@ -31,6 +31,7 @@ class Setup:
 
     def __init__(self, rng, profile):
         self.chain_prefix = "osmo"
+        self.chain_id = rng.choice(["osmosis-1", "osmosis-1", "osmo-test-5", "localosmosis", "celestia", ""])
         self.proto_prefix = "osmo"
         eq = profile.get("equal_prefixes")
         if eq is None:
@@ -197,6 +198,8 @@ class History:
             self.stats.bump(self.stats.err_kinds, "%s:%s" % (var, kh))
             if km != kh:
                 self.stats.bump(self.stats.kind_mismatch, "%s:%s!=%s" % (var, km, kh))
+                if om == "err":
+                    raise Divergence("outcome", {"call": call, "what": "error kind", "model": res_m, "impl": res_h})
             sig = (var, om, kh)
         self.stats.signatures.add(sig)
 
@@ -276,9 +279,9 @@ class History:
 
     def boot(self):
         su = self.su
-        self.h.reset("staking", su.chain_prefix, su.contract)
+        self.h.reset("staking", su.chain_prefix, su.contract, getattr(su, "chain_id", None))
         self.tx_index = 0
-        req = {"op": "boot", "build": self.build, "self": su.contract, "chain_prefix": su.chain_prefix,
+        req = {"op": "boot", "build": self.build, "self": su.contract, "chain_prefix": su.chain_prefix, "chain_id": getattr(su, "chain_id", "osmosis-1"),
                "sender": su.admin, "time": str(self.time), "height": self.height, "tx": 0,
                "msg": su.instantiate_msg()}
         self.events.append({"boot": req})
